@@ -63,6 +63,21 @@ func genOffset(r *Rng, m *ISet) int64 {
 	}
 }
 
+// denseSizeCheck: DenseSize = number of words of the plain bit vector = max/64+1 (0 for the empty bitmap), for bitmaps
+// anywhere in the universe (the conversion itself is only run on small universes: 2^32 bits are 512 MiB).
+func denseSizeCheck(c *Ctx, b *roaring.Bitmap, m *ISet, sig string) {
+	c.Guard(sig+"/DenseSize", func() {
+		want := uint64(0)
+		if mx, ok := m.Max(); ok {
+			want = mx/64 + 1
+		}
+		if g := b.DenseSize(); g != want {
+			c.Fail("DenseSize/value", "DenseSize=%d want %d (set %s)", g, want, m)
+		}
+		c.Eval(1)
+	})
+}
+
 func c16Offset(c *Ctx) {
 	r := c.R
 	o := GenOpts{MaxChunks: 5, HeavyP: 0.45}
@@ -78,6 +93,7 @@ func c16Offset(c *Ctx) {
 		return
 	}
 	countKinds(c, "chunk_kind_", bm.B)
+	denseSizeCheck(c, bm.B, m, "AddOffset")
 	for rep := 0; rep < 4 && !c.Failed(); rep++ {
 		d := genOffset(r, m)
 		if d <= -(1<<32) || d >= 1<<32 {
@@ -111,6 +127,7 @@ func c16Offset(c *Ctx) {
 			return
 		}
 		c.Eval(2)
+		denseSizeCheck(c, res, want, "AddOffset/result")
 		if !m.IsEmpty() {
 			c.Distinct(mix(mix(m.Hash(), uint64(d)), hashStr(form)))
 		}
@@ -178,6 +195,7 @@ func c16Flip(c *Ctx) {
 			return
 		}
 		c.Eval(3)
+		denseSizeCheck(c, res, want, "Flip/static/result")
 		if !m.IsEmpty() {
 			c.Distinct(mix(mix(m.Hash(), s), mix(e, hashStr(form))))
 		}
